@@ -123,6 +123,14 @@ def check(pid, tier, replay=None):
         missing = [c for c in (m.get("required_classes") or []) if m["event_classes_seen"].get(c, 0) == 0]
         if missing:
             v.note_inconclusive(f"[{fl}] required event classes never observed: {missing}")
+    net_info = {}
+    from . import net_ext
+    if pid in net_ext.EXT:
+        try:
+            net_info, net_evals = net_ext.EXT[pid](v, tier)
+            total_eval += net_evals
+        except C.BuildError as e:
+            v.note_inconclusive(str(e))
     cov = {
         "evaluations": total_eval,
         "distinct_nontrivial": len(shapes),
@@ -141,6 +149,7 @@ def check(pid, tier, replay=None):
         "blocks_beyond_65535_observed": wraps,
         "builds": per_flavor,
         "cases_generated_per_build": info.get("cases_generated"),
+        "loopback_complement": net_info,
     }
     assumptions = [
         "the simulated socket + network model + reference peers (harness/src/sim.rs, peers.rs) are the trusted base; peers are written from RFC 1350/2347/7440",
